@@ -20,7 +20,7 @@ pub fn families() -> Vec<Family> {
             "pipelined requests with large patterned echo bodies to the real blocking Server while the client stalls; server write timeouts; wire tap shape oracle on the response stream",
             c05_server,
         )
-        .runs(1_200, 50_000)
+        .runs(6_000, 360_000)
         .steps(1_500_000),
         Family::new(
             "c03_server",
@@ -28,7 +28,7 @@ pub fn families() -> Vec<Family> {
             "pipelined request sequences (every handler kind, format code, malformed bodies, notifies) to the real blocking Server vs. routing/dispatch model",
             c03_server,
         )
-        .runs(2_500, 100_000)
+        .runs(6_000, 360_000)
         .steps(600_000),
     ]
 }
